@@ -9,6 +9,7 @@ W=$(mktemp -d /tmp/vsetup-XXXXXX); trap 'rm -rf "$W"' EXIT
 ./bin/instrument -repo /repo -out "$W" -rules r1,r2,r5,r6 -rt /verif/rt >/dev/null
 go build -tags verif -overlay "$W/overlay.json" -o "$W/vcheck" ./harness/cmd/vcheck
 "$W/vcheck" list >/dev/null
+go test -c -vet=off -tags verif -overlay "$W/overlay.json" -o "$W/fuzzwrap.test" ./harness/fuzzwrap
 if true; then
   rm -rf "$W"/*; ./bin/instrument -repo /repo -out "$W" -rules r2,r3,r4 -rt /verif/rt >/dev/null
   go build -tags verif -overlay "$W/overlay.json" -o "$W/vsched" ./harness/cmd/vcheck
